@@ -74,6 +74,11 @@ def gen():
     for name in ("left_id", "right_id"):
         out.append(G.coq_list("validate_%s_guards" % name, G.guards_of(plain, {"e." + name: "none"}, rel + ":validate_entries")))
         out.append(G.coq_list("validate_%s_guards_indexed" % name, indexed_guards(b, name, rel + ":validate_entries")))
+    pr = F.fn_body(t, "parse_record", rel)
+    if not re.search(r"if\s+surface\.is_empty\(\)\s*\{\s*return\s+rec\.ctx\.err\(BuildFailure::EmptySurface\)", pr):
+        raise F.FactError("parse_record: empty-surface check not recognised")
+    nul = re.search(r"if\s+surface\.contains\('\\0'\)\s*\{\s*return\s+rec\s*\.ctx\s*\.err\(", pr)
+    out.append("(* a surface (trie key) containing a NUL byte is rejected by parse_record (else yada asserts) *)\nDefinition nul_surface_is_error : bool := %s.\n" % ("true" if nul else "false"))
     sb = F.fn_body(t, "should_index", rel)
     m = re.fullmatch(r"\s*self\.left_id\s*(>=|>)\s*(-?[0-9]+)\s*", sb)
     if not m:
